@@ -8,8 +8,8 @@
    No proofs here.
 
    Dropped (pure capacity management, no observable effect): the [shrunk] flag,
-   resize/newEntrySlice copies, slice capacities; the in-memory rate limiter
-   (the harness runs with it disabled); LogReader's maxEntrySliceSize clip of
+   resize/newEntrySlice copies, slice capacities; the rate limiter's limiting decisions
+   (only its size accounting inside inMemory is modelled: im_rl); LogReader's maxEntrySliceSize clip of
    huge ranges (> 4MB/sizeof(Entry) entries).  uint64 wrap-around is written out
    where the code can reach it (entriesToSave); indexes are otherwise assumed
    far below 2^64. *)
@@ -152,10 +152,23 @@ Record inmem := mkIM {
   im_ents : list entry;
   im_saved : N;                  (* savedTo *)
   im_marker : N;                 (* markerIndex *)
-  im_aidx : N; im_aterm : N      (* appliedToIndex / appliedToTerm *)
+  im_aidx : N; im_aterm : N;     (* appliedToIndex / appliedToTerm *)
+  im_rl : option N               (* the size recorded by the rate limiter; None = not rate limited
+                                    (rl == nil or MaxInMemLogSize 0 / MaxUint64) *)
 }.
 
-Definition im_new (lastIndex : N) : inmem := mkIM None [] lastIndex (lastIndex + 1) 0 0.
+Definition im_new (lastIndex : N) (rl : option N) : inmem := mkIM None [] lastIndex (lastIndex + 1) 0 0 rl.
+
+(* pb.GetEntrySliceInMemSize: len(Cmd) + unsafe.Sizeof(Entry) per entry (the uint64 sum wraps:
+   every use below is taken mod 2^64) *)
+Definition isize (l : list entry) : N := fold_right (fun e acc => c19_entry_struct_size + e_len e + acc) 0 l.
+(* RateLimiter.Increase / Decrease (unsigned wrap-around) / Set, only when rateLimited() *)
+Definition rl_inc (rl : option N) (sz : N) : option N :=
+  match rl with Some n => Some ((n + sz) mod 2 ^ 64) | None => None end.
+Definition rl_dec (rl : option N) (sz : N) : option N :=
+  match rl with Some n => Some ((n + 2 ^ 64 - sz mod 2 ^ 64) mod 2 ^ 64) | None => None end.
+Definition rl_set (rl : option N) (sz : N) : option N :=
+  match rl with Some _ => Some (sz mod 2 ^ 64) | None => None end.
 
 Definition im_check_marker (im : inmem) : bool :=
   match im_ents im with [] => true | e :: _ => e_index e =? im_marker im end.
@@ -204,7 +217,7 @@ Definition im_entries_to_save (im : inmem) : list entry :=
   if nlen (im_ents im) <? d then [] else skipn (N.to_nat d) (im_ents im).
 
 Definition im_with_saved (im : inmem) (s : N) : inmem :=
-  mkIM (im_snap im) (im_ents im) s (im_marker im) (im_aidx im) (im_aterm im).
+  mkIM (im_snap im) (im_ents im) s (im_marker im) (im_aidx im) (im_aterm im) (im_rl im).
 
 Definition im_saved_log_to (im : inmem) (index term : N) : res inmem :=
   if index <? im_marker im then Ok im
@@ -225,14 +238,15 @@ Definition im_applied_log_to (im : inmem) (index : N) : res inmem :=
          if negb (e_index e =? index) then Panic PApplyIdx
          else
            let im' := mkIM (im_snap im) (skipn (N.to_nat (index + 1 - im_marker im)) (im_ents im))
-                           (im_saved im) (index + 1) (e_index e) (e_term e) in
+                           (im_saved im) (index + 1) (e_index e) (e_term e)
+                           (rl_dec (im_rl im) (isize (firstn (N.to_nat (index + 1 - im_marker im)) (im_ents im)))) in
            if im_check_marker im' then Ok im' else Panic PMarker
        end.
 
 Definition im_saved_snapshot_to (im : inmem) (index : N) : inmem :=
   match im_snap im with
   | Some (i, _) => if i =? index
-                   then mkIM None (im_ents im) (im_saved im) (im_marker im) (im_aidx im) (im_aterm im)
+                   then mkIM None (im_ents im) (im_saved im) (im_marker im) (im_aidx im) (im_aterm im) (im_rl im)
                    else im
   | None => im
   end.
@@ -250,29 +264,31 @@ Definition im_merge (im : inmem) (ents : list entry) : res inmem :=
       (if f =? im_marker im + nlen (im_ents im) then
          match check_entries_to_append (im_ents im) ents with
          | Some t => Panic t
-         | None => Ok (mkIM (im_snap im) (im_ents im ++ ents) (im_saved im) (im_marker im) (im_aidx im) (im_aterm im))
+         | None => Ok (mkIM (im_snap im) (im_ents im ++ ents) (im_saved im) (im_marker im) (im_aidx im) (im_aterm im)
+                            (rl_inc (im_rl im) (isize ents)))
          end
        else if f <=? im_marker im then
-         Ok (mkIM (im_snap im) ents (f - 1) f (im_aidx im) (im_aterm im))
+         Ok (mkIM (im_snap im) ents (f - 1) f (im_aidx im) (im_aterm im) (rl_set (im_rl im) (isize ents)))
        else
          do existing <- im_get_entries im (im_marker im) f ;;
          match check_entries_to_append existing ents with
          | Some t => Panic t
          | None => Ok (mkIM (im_snap im) (existing ++ ents) (N.min (im_saved im) (f - 1))
-                            (im_marker im) (im_aidx im) (im_aterm im))
+                            (im_marker im) (im_aidx im) (im_aterm im)
+                            (rl_set (im_rl im) (isize ents + isize existing)))
          end) ;;
     if im_check_marker im' then Ok im' else Panic PMarker
   end.
 
-Definition im_restore (im : inmem) (i t : N) : inmem := mkIM (Some (i, t)) [] i (i + 1) i t.
+Definition im_restore (im : inmem) (i t : N) : inmem := mkIM (Some (i, t)) [] i (i + 1) i t (rl_set (im_rl im) 0).
 
 (* ------------------------------------------------------------------ *)
 (* logentry.go                                                         *)
 
 Record elog := mkEL { el_im : inmem; el_committed : N; el_processed : N }.
 
-Definition el_new (lr : reader) : elog :=
-  mkEL (im_new (lr_last lr)) (lr_first lr - 1) (lr_first lr - 1).
+Definition el_new (lr : reader) (rl : option N) : elog :=
+  mkEL (im_new (lr_last lr) rl) (lr_first lr - 1) (lr_first lr - 1).
 
 Definition el_first (el : elog) (lr : reader) : N :=
   match im_snap_index (el_im el) with Some i => i + 1 | None => lr_first lr end.
@@ -564,13 +580,15 @@ Fixpoint run (w : world) (ops : list op) : res world :=
 
 (* (re)start: the harness builds the store, replays it into the LogReader the
    way node.replayLog does, creates the entryLog and loads the committed index *)
-Definition w_init (mi mt : N) (ents : list entry) (committed limit : N) : world :=
+Definition w_init_rl (rlon : bool) (mi mt : N) (ents : list entry) (committed limit : N) : world :=
   let st := st_save (mkSt [] 0) ents in
   let lr0 := if 0 <? mi then mkLR mi mt 1 mi else lr_new in
   let lr := match lr_set_range lr0 (mi + 1) (nlen ents) with Ok l => l | _ => lr0 end in
-  let el0 := el_new lr in
+  let el0 := el_new lr (if rlon then Some 0 else None) in
   let el := mkEL (el_im el0) (N.max (el_committed el0) committed) (el_processed el0) in
   mkW el lr st (el_committed el) [] limit.
+
+Definition w_init := w_init_rl false.
 
 (* the last update handed out (for the observation line) *)
 Definition last_update (w : world) : option update :=
